@@ -1,21 +1,21 @@
 SPECIFICATION MCSpec
 CONSTANTS
-  Nodes = {"a", "b"}
+  Nodes = {"a"}
   SnapCarriesLP = TRUE
   Kinds = {"E"}
-  MaxOps = 2
+  MaxOps = 4
   MaxSys = 0
   MaxFail = 0
   MaxRecFail = 0
-  MaxBlock = 0
-  MaxTake = 2
-  MaxCrash = 0
-  MaxStep = 0
-  MaxZombie = 1
-  MaxSnap = 0
-  MaxForeign = 0
-  Keeps = {0}
-  Eager = FALSE
+  MaxBlock = 1
+  MaxTake = 0
+  MaxCrash = 1
+  MaxStep = 1
+  MaxZombie = 0
+  MaxSnap = 1
+  MaxForeign = 1
+  Keeps = {100}
+  Eager = TRUE
 INVARIANTS TypeOK C18_ControllerDispatches C18_IdleMeansPublished C18_IdContent C18_NoSkip C18_FirstOrder C18_LPSound I_DispAboveLP NoPanic
 PROPERTIES StepsOK
 VIEW MCView
